@@ -15,7 +15,7 @@ RULE = ("cases = the real Geometry group on harness meshes (flat, pre-twisted, c
 ASSUMPTIONS = ["documented meaning of each design variable as stated in the property (reference formulas in this file)"]
 REQUIRED_FAMILIES = ["default/mesh_unchanged", "span/extent", "sweep/shear_law", "dihedral/shear_law", "taper/chord_ratio_linear",
                      "chord/scaling_about_axis", "twist/chord_length_preserved", "twist/axis_fixed", "twist/angle", "shear/pure_translation",
-                     "spline/equal_cp_constant", "combo/composed_reference"]
+                     "spline/equal_cp_constant", "combo/composed_reference", "chord/length_ratio", "combo/dihedral_after_varying_yshear"]
 LEVEL_TEXT = ("the real Geometry group is executed on generated input meshes and design-variable values and its output mesh is "
               "compared with the documented effect of every variable (alone and composed in the documented order) and with the "
               "input mesh at default values")
